@@ -1,5 +1,9 @@
 //! eggmon: language-level runtime monitors for egglog (one sub-command per property).
+mod c03;
 mod c04;
+mod c08;
+mod c10;
+mod c11;
 mod dump;
 mod exec;
 mod pgen;
@@ -58,7 +62,11 @@ fn main() {
     }
     run::quiet_panics();
     let report = match argv[1].as_str() {
+        "c03" => c03::run(&a),
         "c04" => c04::run(&a),
+        "c08" => c08::run(&a),
+        "c10" => c10::run(&a),
+        "c11" => c11::run(&a),
         "exec" => exec::run(&a),
         other => {
             eprintln!("unknown monitor {other}");
